@@ -1022,6 +1022,19 @@ class Evaluator:
             out_ = r[0].k[1]
             for x in r[1:]: out_ = s._binop(ast.Add(), out_ if not isinstance(out_, Poly) else out_, x.k[1])       # [*a, *b] == a + b for lists
             if isinstance(out_, Opq) and out_.k and out_.k[0] == 'concat': return out_
+        if len(r) > 1 and any(isinstance(x, Opq) and x.k and x.k[0] == '*' for x in r):
+            # [a, *xs, b, *ys]  ==  [a] + xs + [b] + ys   (the unpacked operands list-valued terms)
+            segs_, cur_ = [], []
+            for x in r:
+                if isinstance(x, Opq) and x.k and x.k[0] == '*':
+                    if cur_: segs_.append(list(cur_)); cur_ = []
+                    segs_.append(x.k[1])
+                else: cur_.append(x)
+            if cur_: segs_.append(list(cur_))
+            if all(isinstance(g_, (list, Comp)) or (isinstance(g_, Opq) and g_.k and g_.k[0] in ('sorted', 'concat', 'list')) for g_ in segs_):
+                out_ = segs_[0]
+                for g_ in segs_[1:]: out_ = s._binop(ast.Add(), out_, g_)
+                return out_
         return r
 
     def e_Set(s, e, env, mod, depth):
@@ -1287,7 +1300,15 @@ class Evaluator:
         cache = s.prog.__dict__.setdefault('_enum_cache', {})
         if id(cls) in cache: return cache[id(cls)][1]
         out = None
-        bases = [ast.unparse(b).split('.')[-1] for _, c_ in s.prog.mro(m, cls) for b in c_.bases]
+        bases = []
+        for mm_, c_ in s.prog.mro(m, cls):
+            for b in c_.bases:
+                nm_ = ast.unparse(b).split('.')[-1]
+                try:
+                    r_ = s.prog.resolve_expr(mm_, b)          # `from enum import Enum as _Enum`: the imported name counts
+                    if r_ is not None and r_[0] == 'ext' and r_[1].split('.')[0] == 'enum': nm_ = r_[1].split('.')[-1]
+                except Exception: pass
+                bases.append(nm_)
         if any(b in ('Enum', 'IntEnum', 'StrEnum', 'Flag', 'IntFlag') for b in bases):
             cache[id(cls)] = (cls, None)        # (guards against recursion through member values)
             out = {}
@@ -1571,7 +1592,7 @@ class Evaluator:
         """field values of a typing.NamedTuple record in declaration order (it unpacks, iterates and indexes like that tuple), else None"""
         if not (isinstance(v, Rec) and v.clsref and isinstance(v.clsref, tuple)): return None
         m_, c_ = v.clsref[0], v.clsref[1]
-        if not any(ast.unparse(b).split('.')[-1] == 'NamedTuple' for _, cc_ in s.prog.mro(m_, c_) for b in cc_.bases): return None
+        if not any(s.prog.base_name(mm_, b) == 'NamedTuple' for mm_, cc_ in s.prog.mro(m_, c_) for b in cc_.bases): return None
         names = [f_[0] for f_ in s.prog.dataclass_fields(m_, c_)]
         if not all(n_ in v.f for n_ in names): return None
         return tuple(v.f[n_] for n_ in names)
@@ -2046,7 +2067,7 @@ class Evaluator:
             if all(isinstance(k_, Ref) and k_.kind in ('builtin', 'class') for k_ in kinds):
                 mro_ = s.prog.mro(a.clsref[0], a.clsref[1])
                 ext_base = any(s.prog.resolve_expr(mm_, b_) is None or s.prog.resolve_expr(mm_, b_)[0] != 'class' for mm_, cc_ in mro_ for b_ in cc_.bases
-                               if ast.unparse(b_).split('.')[-1] not in ('ABC', 'NamedTuple', 'object', 'Protocol', 'Generic'))
+                               if s.prog.base_name(mm_, b_) not in ('ABC', 'NamedTuple', 'object', 'Protocol', 'Generic', 'Enum', 'IntEnum', 'StrEnum'))
                 if any(k_.kind == 'class' and any(cc_ is k_.node for _, cc_ in mro_) for k_ in kinds): return True
                 if any(k_.kind == 'builtin' and k_.name == 'tuple' for k_ in kinds) and s.namedtuple_items(a) is not None: return True
                 if not ext_base: return False
